@@ -43,6 +43,8 @@ Range(s) == {s[k] : k \in 1..Len(s)}
 Idx(s, x) == CHOOSE k \in 1..Len(s) : s[k] = x
 \* pieces stored or being stored with good bytes (the completion bit is set inside the write window)
 Avail(p) == have[p] \cup {w.piece : w \in {x \in writing[p] : x.good}}
+\* identical payloads in flight are interchangeable: they are numbered 1..k and the highest number is consumed first
+Same(p, i, g) == {m \in net : m.from = p /\ m.piece = i /\ m.good = g}
 Mine == R.p \in Peers /\ R.p \in joined /\ R.p \notin left
 
 TReset == /\ IsEvent("reset")
@@ -90,12 +92,13 @@ TOther    == IsEvent("other") /\ UNCHANGED vars
 \* storage handed out piece i (also by a peer that has just been stopped: the payload may still arrive)
 TServe == /\ IsEvent("Serve") /\ R.p \in joined
           /\ \/ /\ R.res = "ok" /\ R.i \in Avail(R.p) /\ R.good = ServesGood(R.p, R.i)
-                /\ ServeEff(R.p, "any", R.i, R.good, l)
+                /\ ServeEff(R.p, "any", R.i, R.good, 1 + Cardinality(Same(R.p, R.i, R.good)))
              \/ /\ R.res = "err" /\ UNCHANGED net
           /\ UNCHANGED <<cfgv, joined, left, have, bad, conn, req, inv, writing, dl>>
 TWStart == /\ IsEvent("WStart") /\ Mine /\ R.i \in Pieces
            /\ \E m \in net : /\ m.piece = R.i /\ m.good = R.good /\ m.from # R.p
-                             /\ StartWriteEff(R.p, m, R.w)
+                             /\ \A m2 \in Same(m.from, m.piece, m.good) : m2.n <= m.n
+                             /\ StartWriteEff(R.p, m, R.w, TRUE)
            /\ UNCHANGED <<cfgv, joined, left, have, bad, conn, req, inv, dl>>
 \* outcome of the write (see the module comment; "ok" for a wrong payload is let through so that SafeHave reports it)
 TWEnd == /\ IsEvent("WEnd") /\ Mine
@@ -116,7 +119,7 @@ TEnd == /\ IsEvent("End") /\ R.p \in Agents /\ R.p \in joined
         /\ R.cached # "wrong"
         /\ R.present = (R.p \notin left)
         /\ (R.ret = "ok" => R.cached = "exact")
-        /\ (R.present => R.ret = "ok" /\ dl[R.p] = "ok" /\ have[R.p] = Pieces /\ writing[R.p] = {})
+        /\ (R.present => R.ret = "ok" /\ dl[R.p] = "ok" /\ have[R.p] = Pieces)
         /\ UNCHANGED vars
 
 TraceNext == TReset \/ TJoin \/ TDownload \/ TRet \/ TLeave \/ TAddTorrent \/ TConnAdd \/ TConnDrop \/ TBlacklist
